@@ -10,6 +10,8 @@ Engine E5: the Go client library and toxiproxy-cli against a live server.
   c add|cadd <p> <name|-> <type|-> <stream|-> <tox n/d|-> <attrs value tokens>
   c upd|cupd <p> <name> <tox n/d|-> <attrs value tokens>
   c rm|crm <p> <name>
+  h fetch <h> <p> | h enable <h> | h disable <h> | h save <h> | h delete <h> | h set <h> <listen> <upstream>
+      (a proxy handle kept by the caller across operations; reply ends with ` H <handle>`)
   cli list | cli inspect <p> | cli create <p> <l> <u> | cli toggle <p> | cli delete <p>
   cli tadd <p> <name|-> <type|-> <up 0|1> <tox|-> <attrs> | cli tupd <p> <name|-> <tox|-> <attrs> | cli trm <p> <name|->
 Reply: `failed=<0|1> n=<k> ; <METHOD> <path> <body tokens> ; … | <state>`
@@ -21,6 +23,8 @@ open Toxi.Toxic (Frac)
 structure State where
   base : E4.State := {}
   cv   : CliVariant := .fixed
+  /-- proxy handles the caller holds (`h fetch h1 p1` …) -/
+  handles : List (String × CProxy) := []
 
 def init : State := {}
 
@@ -76,12 +80,31 @@ def outStr (st : State) (o : Outcome) : String :=
 def finish (st : State) (o : Outcome) : State × String :=
   ({ st with base := { st.base with s := o.state } }, outStr st o)
 
+def handleStr : Option CProxy → String
+  | none => "-"
+  | some h => s!"{hexStr h.name}|{hexStr h.listen}|{hexStr h.upstream}|{bstr h.enabled}|{bstr h.created}"
+
+def hstep (st : State) (hn : String) (op : HOp) : State × String :=
+  let cur := st.handles.lookup hn
+  let (o, h') := runHandle st.base.v st.base.env st.base.s cur op
+  let hs := match h' with
+    | some x => (st.handles.filter (·.1 != hn)) ++ [(hn, x)]
+    | none => st.handles
+  let st' := { st with base := { st.base with s := o.state }, handles := hs }
+  (st', outStr st o ++ " H " ++ handleStr h')
+
 def step (st : State) (line : String) : State × String :=
   let v := st.base.v
   let e := st.base.env
   let s := st.base.s
   match words line with
   | ["clivariant", x] => ({ st with cv := if x == "legacy" then .legacy else .fixed }, "ok")
+  | ["h", "fetch", hn, p] => hstep st hn (.fetch p)
+  | ["h", "enable", hn] => hstep st hn .enable
+  | ["h", "disable", hn] => hstep st hn .disable
+  | ["h", "save", hn] => hstep st hn .save
+  | ["h", "delete", hn] => hstep st hn .delete
+  | ["h", "set", hn, l, u] => hstep st hn (.setAddr l u)
   | ["c", "create", n, l, u] => finish st (run v e s (.createProxy n l u))
   | ["c", "get", n] => finish st (run v e s (.getProxy n))
   | ["c", "save", n, l, u, en, cr] =>
